@@ -180,9 +180,11 @@ func (v *validator) needBinding(gv *Inst) {
 
 // sizeOf computes the byte size implied by explicit layout decorations (0 if unknown).
 func (v *validator) sizeOf(tid uint32, matStride uint32, rowMajor bool) uint32 {
+	v.depth++
+	defer func() { v.depth-- }()
 	m := v.m
 	t := m.types[tid]
-	if t == nil {
+	if t == nil || v.depth > 32 {
 		return 0
 	}
 	switch t.Kind {
@@ -244,6 +246,11 @@ func (v *validator) memberMatrix(st uint32, i int) (uint32, bool) {
 
 // scalarAlign is the scalar alignment of a type (the weakest alignment any Vulkan layout demands).
 func (v *validator) scalarAlign(tid uint32) uint32 {
+	v.depth++
+	defer func() { v.depth-- }()
+	if v.depth > 32 {
+		return 1
+	}
 	t := v.m.types[tid]
 	for i := 0; t != nil && i < 8; i++ {
 		switch t.Kind {
